@@ -113,6 +113,18 @@ def run(chk):
     for _sc, _o in zip(tl, tlobs):
         if _o.get('harness_error') or _o.get('stuck'):
             continue
+        # what the setting says now is what the tasks of the next call get (a worker id or none, a state object or none)
+        _now = {k: bool(_sc['pool'].get(k)) for k in ('pass_worker_id', 'use_worker_state')}
+        for _opi, _op in enumerate(_sc['ops']):
+            if _op['op'] == 'set' and _op['what'] in _now:
+                _now[_op['what']] = bool(_op['value'])
+            elif _op['op'] != 'set':
+                for c in [c for c in _o.get('calls', []) if c[0] == _opi and c[1] == 'task']:
+                    got = {'pass_worker_id': c[4] is not None, 'use_worker_state': len(c) > 12 and c[12] is not None}
+                    if got != _now:
+                        chk.violation('call_gets_the_current_settings', {'scenario': _sc}, {'op': _opi, 'task_received': got, 'settings_now': dict(_now)},
+                                      'a call on a kept-alive pool runs with the pool settings in force when it is made', input_class='stale_settings')
+                        break
         for _opi, (_op, _oo) in enumerate(zip(_sc['ops'], _o.get('ops', []))):
             if _op.get('task_timeout') and _oo.get('outcome') != 'ok':
                 chk.violation('valid_call_raises', {'scenario': _sc}, {'op': _opi, 'raised': _oo.get('exc')}, 'no task comes near its time limit: the call returns the sequential results',
